@@ -116,6 +116,17 @@ func readBatch(c *fw.Ctx, id, engine string, setup []bt.Op, tag func(*bt.Op) str
 			return
 		}
 	}
+	// the populated table itself must read back as the model says (one full unfiltered read)
+	w.stateCheck = true
+	if m := w.CompareState(); m != "" {
+		sc := seqCase{Engine: engine, Setup: setup}
+		c.Violate(fmt.Sprintf("%s:%s:state:setup", id, engine), "state after the setup requests: "+m, sc, func() string {
+			s, _ := replaySeq(c, id, sc, tag)
+			return s
+		})
+		return
+	}
+	w.stateCheck = false
 	h := w.Hash()
 	c.State(h)
 	n := 0
@@ -285,11 +296,12 @@ func runC03(c *fw.Ctx) {
 			}
 		}
 		c.Bound(eng+"_pair_ranges", len(sub)*len(sub))
-		// pass 3: result sets spanning several response messages (3 rows x 400 cells > 1024 chunks)
+		// pass 3: result sets spanning several response messages: 5 rows x 600 cells; the server sends
+		// whenever more than 1024 chunks have accumulated, i.e. after the 2nd and the 4th row and at the end
 		item++
 		if c.Mine(item) {
-			big := []string{"a", "a\x00", "b"}
-			readBatch(c, "C03", eng, populate(big, 400), c03Tag, func(emit func(bt.Op)) {
+			big := []string{"a", "a\x00", "ab", "b", "\xff"}
+			readBatch(c, "C03", eng, populate(big, 600), c03Tag, func(emit func(bt.Op)) {
 				emit(bt.Op{Kind: "ReadRows", Table: tblT})
 				for _, lim := range limits {
 					for _, r := range []bt.Range{{}, {SK: 1, S: []byte("a")}, {SK: 2, S: []byte("a")}, {EK: 2, E: []byte("b")}, {EK: 1, E: []byte("b")}, {SK: 2, S: []byte("a"), EK: 2, E: []byte("b")}} {
